@@ -161,6 +161,20 @@ CHECKS = {
         note='A trailing batch with no real row is accepted either way; non-trivial order only for streams >= 10; '
              'empty federated datasets are C08 territory.',
         design='5/C15'),
+    'C17': dict(
+        technique='TLA+ spec AlgHistory.tla (sliding-window queue, participants-only state table, own-clusters-only '
+                  'updates) model-checked by TLC; multi-round histories of the real agnostic_fed_avg, apfl and '
+                  'hyp_cluster validated round by round by TLC (AlgHistoryTrace.tla); MimeLite clipping and '
+                  'ignore_grads_haiku as PureHistory facts',
+        text='TLC proves the window, key-set and cluster-update invariants for all cohorts / counts / assignments of small '
+             'instances (three deviations reported); 4-8 round real histories - including rounds where a domain or a '
+             'cluster receives no example - must be behaviours of the specification with the real window, client table, '
+             'assignment and changed clusters bound in every round, domain weights on the simplex, coefficients in '
+             '[0,1], assignment of minimal loss (independent float64 loss); MimeLite aggregate and per-client norms within '
+             'the bound; frozen leaves bit-identical and trainable leaves equal to the base optimizer.',
+        note='Numeric flags (simplex, unit interval, argmin with 1e-4 tie tolerance, norms) are evaluated by the driver and '
+             'judged by TLC.',
+        design='5/C17'),
     'C19': dict(
         technique='TLA+ spec Cache.tla model-checked by TLC (kills, torn writes, I/O errors at every step, liveness); '
                   'real maybe_download/maybe_lzma_decompress explored breadth-first over fault-reachable cache '
